@@ -16,6 +16,7 @@ from __future__ import annotations
 import asyncio
 import os
 import re
+import signal
 import tempfile
 from dataclasses import dataclass, field
 from typing import Any, Callable
@@ -92,12 +93,45 @@ def build_shapes() -> list[Shape]:
 
 @dataclass
 class Outcome:
-    status: str  # ok | refused | raised
+    status: str  # ok | refused | raised | hangs
     routes: list = field(default_factory=list)
     detail: str = ''  # error message / exception type
 
     def short(self) -> str:
         return self.status if self.status != 'raised' else f'raised:{self.detail.split(":")[0]}'
+
+
+class Hang(BaseException):
+    """Raised by the watchdog inside an entry point that does not return (BaseException so that no
+    `except Exception` of the code under test swallows it)."""
+
+
+class watchdog:
+    """`with watchdog(seconds) as w:` — interrupts the (pure Python) code under test when it loops."""
+
+    fired = False
+
+    def __init__(self, seconds: float) -> None:
+        self.seconds = seconds
+
+    def _handler(self, signum, frame):
+        self.fired = True
+        raise Hang(f'no answer after {self.seconds}s')
+
+    def __enter__(self) -> 'watchdog':
+        self.old = signal.signal(signal.SIGALRM, self._handler)
+        signal.setitimer(signal.ITIMER_REAL, self.seconds)
+        return self
+
+    def __exit__(self, *a: Any) -> bool:
+        signal.setitimer(signal.ITIMER_REAL, 0)
+        signal.signal(signal.SIGALRM, self.old)
+        return False
+
+
+# The API command handlers catch ValueError and IndexError around api_* and answer with an error reply
+# ("Failed to parse route: …", "Invalid route syntax: …"): these two are the parser's documented refusal.
+REFUSAL_EXCEPTIONS = (ValueError, IndexError)
 
 
 def _exc(e: BaseException) -> str:
@@ -135,6 +169,7 @@ class Rig:
         self.reactor = reactor
         self.api = API(reactor)
         self.loop = asyncio.new_event_loop()
+        self.timeout = 2.0  # seconds an entry point may take before it counts as hanging
 
     def close(self) -> None:
         self.loop.close()
@@ -142,9 +177,16 @@ class Rig:
     # -- programmatic entry ---------------------------------------------------------------
     def parse_text(self, text: str) -> Outcome:
         try:
-            routes = self.cfg.parse_route_text(text)
+            with watchdog(self.timeout) as w:
+                routes = self.cfg.parse_route_text(text)
+        except Hang as e:
+            return Outcome('hangs', [], _exc(e))
+        except REFUSAL_EXCEPTIONS as e:
+            return Outcome('hangs' if w.fired else 'refused', [], _exc(e))
         except Exception as e:  # noqa: BLE001 — any exception out of the entry point is the observation
-            return Outcome('raised', [], _exc(e))
+            return Outcome('hangs' if w.fired else 'raised', [], _exc(e))
+        if w.fired:
+            return Outcome('hangs', [], 'watchdog fired and was swallowed')
         if routes:
             return Outcome('ok', routes)
         return Outcome('refused', [], str(self.cfg.error))
@@ -153,6 +195,22 @@ class Rig:
     def api_call(self, kind: str, text: str) -> Outcome:
         cmd = 'announce ' + text
         try:
+            with watchdog(self.timeout) as w:
+                routes = self._api(kind, cmd)
+        except Hang as e:
+            return Outcome('hangs', [], _exc(e))
+        except REFUSAL_EXCEPTIONS as e:
+            return Outcome('hangs' if w.fired else 'refused', [], _exc(e))
+        except Exception as e:  # noqa: BLE001
+            return Outcome('hangs' if w.fired else 'raised', [], _exc(e))
+        if w.fired:
+            return Outcome('hangs', [], 'watchdog fired and was swallowed')
+        if routes:
+            return Outcome('ok', routes)
+        return Outcome('refused', [], str(self.api.configuration.error))
+
+    def _api(self, kind: str, cmd: str) -> list:
+        if True:
             if kind == 'route':
                 routes = self.api.api_route(cmd)
             elif kind == 'attributes':
@@ -163,11 +221,7 @@ class Rig:
                 routes = self.api.api_vpls(cmd)
             else:
                 raise AssertionError(kind)
-        except Exception as e:  # noqa: BLE001
-            return Outcome('raised', [], _exc(e))
-        if routes:
-            return Outcome('ok', routes)
-        return Outcome('refused', [], str(self.api.configuration.error))
+        return routes
 
     # -- the command handlers (what the API client is answered) ----------------------------------
     def handler_call(self, kind: str, text: str) -> tuple[str, list, str]:
@@ -180,11 +234,20 @@ class Rig:
         r.asynchronous.schedule = lambda service, command, coro: captured.append(coro)
         fn = {'route': api_announce.announce_route, 'attributes': api_announce.announce_attributes, 'flow': api_announce.announce_flow, 'flow6': api_announce.announce_flow, 'vpls': api_announce.announce_vpls}[kind]
         try:
-            fn(self.api, r, 'svc', [], text, False, 'announce')
+            with watchdog(self.timeout) as w:
+                fn(self.api, r, 'svc', [], text, False, 'announce')
+                for coro in captured:
+                    self.loop.run_until_complete(coro)
+        except Hang as e:
             for coro in captured:
-                self.loop.run_until_complete(coro)
+                coro.close()
+            self.loop.close()
+            self.loop = asyncio.new_event_loop()
+            return 'hangs', [], _exc(e)
         except Exception as e:  # noqa: BLE001
-            return 'raised', [], _exc(e)
+            return ('hangs' if w.fired else 'raised'), [], _exc(e)
+        if w.fired:
+            return 'hangs', [], 'watchdog fired and was swallowed'
         routes = [c.args[1] for c in r.configuration.announce_route.call_args_list]
         if r.processes.answer_error.await_count:
             args = r.processes.answer_error.await_args.args
@@ -220,9 +283,14 @@ class Rig:
                 f.write(content)
             c = Configuration([path])
             try:
-                ok = c.reload()
+                with watchdog(self.timeout) as w:
+                    ok = c.reload()
+            except Hang as e:
+                return Outcome('hangs', [], _exc(e)), {}
             except Exception as e:  # noqa: BLE001
-                return Outcome('raised', [], _exc(e)), {}
+                return Outcome('hangs' if w.fired else 'raised', [], _exc(e)), {}
+            if w.fired:
+                return Outcome('hangs', [], 'watchdog fired and was swallowed'), {}
             msg = str(c.error)
             if ok is True:
                 routes = [r for n in c.neighbors.values() for r in n.routes]
@@ -244,14 +312,22 @@ class Rig:
         out = []
         # routes of one definition share their attributes (`attributes … nlri a b`), or there is one route
         coll = UpdateCollection([RoutedNLRI(r.nlri, r.nexthop) for r in rs], [], rs[0].attributes)
-        for m in coll.messages(shape.neg_out):
-            out.append(bytes(m))
+        try:
+            with watchdog(max(self.timeout, 20.0)):
+                for m in coll.messages(shape.neg_out):
+                    out.append(bytes(m))
+        except Hang:
+            raise RuntimeError('messages() does not return') from None
         return out
 
     def decode(self, shape: Shape, msg: bytes):
         AttributeCollection.cached = None
         AttributeCollection.previous = b''
-        return Message.unpack(2, msg[19:], shape.neg_in)
+        try:
+            with watchdog(max(self.timeout, 20.0)):
+                return Message.unpack(2, msg[19:], shape.neg_in)
+        except Hang:
+            raise RuntimeError('Message.unpack does not return') from None
 
 
 # ---------------------------------------------------------------------------------------------
@@ -535,11 +611,12 @@ def w_flow_prefix(what: str):
         mp = mp_reach(attrs)
         if mp is None:
             return None
-        comps = flow_components(mp[3], mp[0])
-        for t, payload in comps:
-            if t == 1:
-                return bytes([payload[1] if what == 'mask' else payload[2]])
-        return None
+        n = mp[3]
+        data = n[2:] if n[0] >= 0xF0 else n[1:]
+        if not data or data[0] != 1:
+            return None
+        # type(1) length(1) [offset(1), IPv6 only] pattern…
+        return data[1:2] if what == 'mask' else data[2:3]
 
     return f
 
@@ -582,6 +659,23 @@ def _hexint(s: str) -> int:
     return int(s, 16)
 
 
+def _rx_all(pattern: str):
+    """Every match (an AGGREGATOR and an AS4_AGGREGATOR both print as `aggregator ( … )`)."""
+    cre = re.compile(pattern)
+
+    def f(text: str) -> list[int] | None:
+        found = [int(x) for x in cre.findall(text)]
+        return found or None
+
+    return f
+
+
+def _dotted_or_int(s: str) -> int:
+    if '.' in s:
+        return int.from_bytes(bytes(int(x) for x in s.split('.')), 'big')
+    return int(s)
+
+
 @dataclass
 class FieldSpec:
     name: str  # Lean field name (without the session suffix)
@@ -593,6 +687,7 @@ class FieldSpec:
     present: Callable[[Shape], bool] = lambda s: True
     count: Callable[[int], str] | None = None  # for count fields: value text for n elements
     slow: bool = False  # quadratic parser: large values only in the thorough tier
+    no_empty: bool = False  # the value is one element of a bracketed list: an empty text is just a shorter list
     note: str = ''
 
     def lean(self, shape: Shape) -> str:
@@ -612,7 +707,7 @@ def _seq(n: int, fmt: Callable[[int], str]) -> str:
 
 FIELDS: list[FieldSpec] = [
     FieldSpec('asPathAsn', 'route', R + 'as-path [ 64512 {v} 64513 ]', w_aspath, _rx(r'as-path [(\[] (?:\d+ )*?64512 (\d+) 64513'), sess=True),
-    FieldSpec('aggregatorAsn', 'route', R + 'aggregator ( {v}:1.2.3.4 )', w_aggregator_asn, _rx(r'aggregator \( (\d+):'), sess=True),
+    FieldSpec('aggregatorAsn', 'route', R + 'aggregator ( {v}:1.2.3.4 )', w_aggregator_asn, _rx_all(r'aggregator \( (\d+):'), sess=True),
     FieldSpec('aggregatorOctet', 'route', R + 'aggregator ( 65000:1.2.3.{v} )', w_attr(7, -1, None), _rx(r'aggregator \( \d+:1\.2\.3\.(\d+) \)')),
     FieldSpec('originatorOctet', 'route', R + 'originator-id 1.2.3.{v}', w_attr(9, 3, 4), _rx(r'originator-id 1\.2\.3\.(\d+)')),
     FieldSpec('clusterOctet', 'route', R + 'cluster-list [ 1.2.3.{v} ]', w_attr(10, 3, 4), _rx(r'cluster-list \[? ?1\.2\.3\.(\d+)')),
@@ -628,7 +723,7 @@ FIELDS: list[FieldSpec] = [
     FieldSpec('extIpOctet', 'route', R + 'extended-community [ target:1.2.3.{v}:1 ]', w_ext(5, 6), _rx(r'extended-community \[? ?target:1\.2\.3\.(\d+):1')),
     FieldSpec('extLocalIp', 'route', R + 'extended-community [ target:1.2.3.4:{v} ]', w_ext(6, 8), _rx(r'extended-community \[? ?target:1\.2\.3\.4:(\d+)')),
     FieldSpec('extAdmin', 'route', R + 'extended-community [ origin:{v}:1 ]', w_ext_admin, None, note='origin'),
-    FieldSpec('extLocalA16', 'route', R + 'extended-community [ origin:1:{v} ]', w_ext(4, 8), _rx(r'extended-community \[? ?origin:1:(\d+)'), note='origin'),
+    FieldSpec('extLocalA16', 'route', R + 'extended-community [ origin:1:{v} ]', w_ext(4, 8), _rx(r'extended-community \[? ?origin:1:([\d.]+)', conv=_dotted_or_int), note='origin'),
     FieldSpec('l2infoEncaps', 'route', R + 'extended-community [ l2info:{v}:0:1500:111 ]', w_ext(2, 3), _rx(r'l2info:(\d+):\d+:\d+:\d+')),
     FieldSpec('l2infoControl', 'route', R + 'extended-community [ l2info:19:{v}:1500:111 ]', w_ext(3, 4), _rx(r'l2info:\d+:(\d+):\d+:\d+')),
     FieldSpec('l2infoMtu', 'route', R + 'extended-community [ l2info:19:0:{v}:111 ]', w_ext(4, 6), _rx(r'l2info:\d+:\d+:(\d+):\d+')),
@@ -663,7 +758,7 @@ FIELDS: list[FieldSpec] = [
     FieldSpec('vplsOffset', 'vpls', VP.format(e=5, b=10, o='{v}', s=8), w_vpls(2, 4), _rx(r'offset (\d+)')),
     FieldSpec('vplsSize', 'vpls', VP.format(e=5, b=10, o=1, s='{v}'), w_vpls(4, 6), _rx(r'size (\d+)')),
     FieldSpec('vplsBase', 'vpls', VP.format(e=5, b='{v}', o=1, s=0), w_vpls(6, 9), _rx(r'base (\d+)')),
-    FieldSpec('flowProtocol', 'flow', FL4.format(c='protocol'), w_flow_value, _rx(r'protocol =(\d+)')),
+    FieldSpec('flowProtocol', 'flow', FL4.format(c='protocol'), w_flow_value, None),
     FieldSpec('flowPort', 'flow', FL4.format(c='port'), w_flow_value, _rx(r' port =(\d+)')),
     FieldSpec('flowDstPort', 'flow', FL4.format(c='destination-port'), w_flow_value, _rx(r'destination-port =(\d+)')),
     FieldSpec('flowSrcPort', 'flow', FL4.format(c='source-port'), w_flow_value, _rx(r'source-port =(\d+)')),
@@ -674,7 +769,7 @@ FIELDS: list[FieldSpec] = [
     FieldSpec('flowDscp', 'flow', FL4.format(c='dscp'), w_flow_value, _rx(r'dscp =(\d+)')),
     FieldSpec('flowFragment', 'flow', FL4.format(c='fragment'), w_flow_value, None),
     FieldSpec('flowMask4', 'flow', 'flow route { match { destination 0.0.0.0/{v}; } then { discard; } }', w_flow_prefix('mask'), _rx(r'0\.0\.0\.0/(\d+)')),
-    FieldSpec('flowNextHeader', 'flow6', FL6.format(c='next-header'), w_flow_value, _rx(r'next-header =(\d+)')),
+    FieldSpec('flowNextHeader', 'flow6', FL6.format(c='next-header'), w_flow_value, None),
     FieldSpec('flowTrafficClass', 'flow6', FL6.format(c='traffic-class'), w_flow_value, _rx(r'traffic-class =(\d+)')),
     FieldSpec('flowLabel', 'flow6', FL6.format(c='flow-label'), w_flow_value, _rx(r'flow-label =(\d+)')),
     FieldSpec('flowDstPort', 'flow6', FL6.format(c='destination-port'), w_flow_value, _rx(r'destination-port =(\d+)'), note='ipv6'),
